@@ -105,11 +105,15 @@ structure EvoADFields where
 /-- repr of `np.round(v, 2)` as a Python float given in hundredths. -/
 def hundredthsRepr (h : Int) : List Char := pyFloatRepr ((h : Rat) / 100)
 
+/-- One of the eight per-tip volume fields: `"<volume>",` for a selected tip, `0,` otherwise. -/
+def slotText (s : Option Int) : List Char :=
+  match s with
+  | some h => '"' :: hundredthsRepr h ++ ['"', ',']
+  | none => ['0', ',']
+
 def EvoADFields.render (f : EvoADFields) : List Char :=
   let head := if f.isAsp then "B;Aspirate(".toList else "B;Dispense(".toList
-  let vols := f.slots.flatMap fun s => match s with
-    | some h => '"' :: hundredthsRepr h ++ ['"', ',']
-    | none => ['0', ',']
+  let vols := f.slots.flatMap slotText
   head ++ natDigits f.tipSel ++ ",\"".toList ++ f.liquidClass.toList ++ "\",".toList ++ vols
     ++ "0,0,0,0,".toList ++ natDigits f.grid ++ [','] ++ natDigits f.site ++ ",1,\"".toList
     ++ encodeSelection f.rows f.cols f.bits ++ "\",0,".toList ++ natDigits f.arm ++ ");".toList
